@@ -18,6 +18,10 @@ structure Dom (d L r : Nat) (key : List Nat) : Prop where
   hkey : key.length ≤ 64
   hkb : ∀ x ∈ key, x < 256
 
+theorem dom_of {d L r : Nat} {key : List Nat} (hd : d ≤ 512) (hL : L ≤ 64) (hr1 : 1 ≤ r) (hr : r < 4096)
+    (hkey : key.length ≤ 64) (hkb : ∀ x ∈ key, x < 256) : Dom d L r key :=
+  ⟨by omega, by omega, hr1, by omega, hkey, hkb⟩
+
 theorem ofNat_mod (x : Nat) : BitVec.ofNat 64 (x % 2 ^ 64) = BitVec.ofNat 64 x := by
   apply BitVec.eq_of_toNat_eq; simp
 
